@@ -1,13 +1,66 @@
 (** C01 — write-then-read returns exactly the records that were added.
-    (placeholder: property theorems are added as the integration proofs land) *)
-From Coq Require Import List NArith.
-From PQ Require Import Bytes Schema Dremel DremelProofs.
+    Statements only; proofs in PQ.ReaderProofs / PQ.ReaderProofs2 /
+    PQ.WriterProofs / PQ.DremelProofs.  [file_bytes compress cfg h] is the file
+    the writer model produces for the call history [h] (any mix of Add and
+    Write, then Close); [read_all] is the whole life of the reader model
+    (constructor, Next/Scan until Next is false).  The two codec facts are
+    premises, not axioms: they are the contract of snappy/gzip and of
+    fields.go's [compress] for UNCOMPRESSED (without the second the statement
+    is false — ReaderProofs2.Example.ident_needed). *)
+From Coq Require Import List NArith ZArith.
+From PQ Require Import Bytes Schema Dremel DremelProofs MetaTypes Writer Reader WriterProofs ReaderProofs ReaderProofs2.
 Import ListNotations.
 
-(** The record-level core: the reference striping is lossless for every
-    well-typed record of every well-formed shape, and for sequences of records. *)
+(** For every shape, page size >= 1, codec, and every list of non-empty
+    well-typed batches within the int32 size limits of the format: the reader
+    returns exactly those records in order, Rows() and the number of times Next
+    is true equal their number, Error() is nil, nothing panics. *)
+Theorem C01_write_read_roundtrip :
+  forall (compress : Z -> bytes -> bytes) (decompress : Z -> bytes -> option bytes),
+  (forall c x, codec_ok c -> decompress c (compress c x) = Some x) ->
+  (forall x, compress CODEC_UNCOMPRESSED x = x) ->
+  forall cfg bs,
+  cfg_ok cfg -> Forall (batch_ok compress cfg) bs -> footer_ok compress cfg bs ->
+  read_all decompress (cfg_fields cfg) (file_of_batches compress cfg bs) =
+  {| o_open_ok := true;
+     o_rows := Z.of_nat (length (concat bs));
+     o_nexts := N.of_nat (length (concat bs));
+     o_err := false; o_panic := false;
+     o_recs := concat bs |}.
+Proof. exact write_read_roundtrip. Qed.
+Print Assumptions C01_write_read_roundtrip.
+
+(** The same for every Add/Write history: what is read back is the
+    concatenation of the non-empty written batches. *)
+Theorem C01_history_roundtrip :
+  forall (compress : Z -> bytes -> bytes) (decompress : Z -> bytes -> option bytes),
+  (forall c x, codec_ok c -> decompress c (compress c x) = Some x) ->
+  (forall x, compress CODEC_UNCOMPRESSED x = x) ->
+  forall cfg h,
+  cfg_ok cfg -> Forall (batch_ok compress cfg) (nonempty_batches h) -> footer_ok compress cfg (nonempty_batches h) ->
+  read_all decompress (cfg_fields cfg) (file_bytes compress cfg h) =
+  {| o_open_ok := true;
+     o_rows := Z.of_nat (length (concat (nonempty_batches h)));
+     o_nexts := N.of_nat (length (concat (nonempty_batches h)));
+     o_err := false; o_panic := false;
+     o_recs := concat (nonempty_batches h) |}.
+Proof.
+  intros compress decompress Hc Hi cfg h Hcfg Hb Hf.
+  rewrite file_bytes_batches. apply write_read_roundtrip; assumption.
+Qed.
+Print Assumptions C01_history_roundtrip.
+
+(** The record-level core: the reference striping is lossless. *)
 Theorem C01_shred_assemble_records : forall fs vs,
   ty_okb (TGroup fs) = true -> Forall (fun v => has_tyb (TGroup fs) v = true) vs ->
   assemble_records fs (shred_records fs vs) = Some vs.
 Proof. exact assemble_shred_records. Qed.
 Print Assumptions C01_shred_assemble_records.
+
+(** Non-vacuity: a concrete configuration (optional int32, repeated bool,
+    required string; page size 2; three row groups) meets every hypothesis. *)
+Example C01_hypotheses_satisfiable :
+  cfg_okb Example.cfg0 = true /\
+  forallb (batch_okb Example.cid Example.cfg0) Example.bs0 = true /\
+  footer_okb Example.cid Example.cfg0 Example.bs0 = true.
+Proof. exact Example.hyps_hold. Qed.
